@@ -150,8 +150,8 @@ def do_import(pid, name, prefix="seed"):
 
 if __name__ == "__main__":
     a = sys.argv[1:]
-    if a[0] in ("import", "import2", "import3", "import4", "import5", "import6", "import7", "import8", "import9", "import10", "import11", "import12", "import13"):
-        pref = {"import": "seed", "import2": "seed2", "import3": "seed3", "import4": "seed4", "import5": "seed5", "import6": "seed6", "import7": "seed7", "import8": "seed8", "import9": "seed9", "import10": "seed10", "import11": "seed11", "import12": "seed12", "import13": "seed13"}[a[0]]
+    if a[0] in ("import", "import2", "import3", "import4", "import5", "import6", "import7", "import8", "import9", "import10", "import11", "import12", "import13", "import14"):
+        pref = {"import": "seed", "import2": "seed2", "import3": "seed3", "import4": "seed4", "import5": "seed5", "import6": "seed6", "import7": "seed7", "import8": "seed8", "import9": "seed9", "import10": "seed10", "import11": "seed11", "import12": "seed12", "import13": "seed13", "import14": "seed14"}[a[0]]
         do_import(a[1], a[2], pref)
         if a[0] != "import":
             subprocess.run(["git", "-C", "/repo", "worktree", "remove", "--force", "/tmp/%s-%s" % (pref, a[1])])
